@@ -160,6 +160,7 @@ type result struct {
 	Events        int    `json:"events_received"`
 	MaxDepth      int    `json:"max_nesting_depth"`
 	Concurrent    int    `json:"cases_with_concurrent_derivation"`
+	Reused        int    `json:"stacks_built_again_from_the_same_argument_slice"`
 	Viols         []viol `json:"viols,omitempty"`
 }
 
@@ -265,6 +266,7 @@ func runCase(seed uint64, idx int, res *result) {
 	nop := &node{em: cff.NopEmitter()}
 	nodes = append(nodes, nop)
 	var desc []string
+	var reused []*node
 	usedAsChild := map[*node]int{}
 	build := func(args []*node) *node {
 		ems := make([]cff.Emitter, len(args))
@@ -288,6 +290,17 @@ func runCase(seed uint64, idx int, res *result) {
 		nodes = append(nodes, n)
 		desc = append(desc, fmt.Sprintf("n%d=Stack%v", len(nodes)-1, names))
 		res.Stacks++
+		if r.Chance(1, 3) {
+			// the caller keeps its argument slice and builds a second stack from
+			// it (a stack built once per call from a long-lived list of emitters)
+			n2 := &node{em: cff.EmitterStack(ems...), leaves: fl}
+			depth[n2] = dmax + 1
+			nodes = append(nodes, n2)
+			desc = append(desc, fmt.Sprintf("n%d=Stack%v(same slice again)", len(nodes)-1, names))
+			res.Stacks++
+			res.Reused++
+			reused = append(reused, n2)
+		}
 		return n
 	}
 	pickArgs := func(k int, first *node) []*node {
@@ -296,6 +309,9 @@ func runCase(seed uint64, idx int, res *result) {
 		if first != nil {
 			args = append(args, first)
 			used = append(used, first.leaves...)
+		}
+		if r.Chance(1, 4) {
+			args = append(args, nop) // a no-op emitter among the arguments
 		}
 		for tries := 0; len(args) < k && tries < 40; tries++ {
 			c := nodes[r.Intn(len(nodes))]
@@ -373,6 +389,7 @@ func runCase(seed uint64, idx int, res *result) {
 			res.SharedParents++
 		}
 	}
+	stacks = append(stacks, reused...)
 	// drive every stack (and some leaves directly), in random order
 	order := r.Perm(len(stacks))
 	want := map[int]map[int][]ev{} // leaf -> drive -> events
